@@ -76,6 +76,162 @@ example : (run (new 2) [.set 1 10, .set 1 11, .set 2 20, .del 1, .clear]).dispos
 example : pop (run (new 2) [.set 1 10, .set 2 20]).c.items 3 = none ∧
     2 ≤ (run (new 2) [.set 1 10, .set 2 20]).c.items.length := by decide
 
+/-! ## all thread interleavings (lock-granularity small-step semantics `U3.Conc`) -/
+open U3.Conc
+
+/-- Linearizability.  For every set of thread programs and every schedule `σ`: the ghost history is
+the interleaving of the programs selected by the lock-acquisition order `τ` (program order of every
+thread is respected), and the shared container, every thread's results, and the multiset of dispose
+calls (made + still pending) are those of the *sequential* execution of that history — which is
+`Lru.run` on the plain op list.  When all threads have finished, the dispose calls made are exactly
+the sequential ones and `τ` exhausts all programs. -/
+theorem C17_linearizable (cap : Nat) (progs : List (List Op)) (σ : List Nat) :
+    let cfg := exec Lru.step (Cfg.init (Lru.new cap) progs) σ
+    let τ := cfg.hist.map (·.1)
+    let q := seqRun Lru.step (Lru.new cap) progs.length (histOf progs τ)
+    cfg.hist = histOf progs τ ∧
+    cfg.threads.map (·.todo) = restOf progs τ ∧
+    cfg.st = q.st ∧ cfg.threads.map (·.results) = q.results ∧
+    (cfg.log.map (·.2) ++ pending cfg).Perm q.disposed ∧
+    q.st = (run (Lru.new cap) ((histOf progs τ).map (·.2))).c ∧
+    q.disposed = (run (Lru.new cap) ((histOf progs τ).map (·.2))).disposed ∧
+    (cfg.done = true → (cfg.log.map (·.2)).Perm q.disposed ∧ (restOf progs τ).all List.isEmpty = true) := by
+  intro cfg τ q
+  have ho := ordInv_exec Lru.step (Lru.new cap) progs σ
+  have hl := linInv_exec Lru.step (Lru.new cap) progs σ
+  have hq : seqRun Lru.step (Lru.new cap) progs.length cfg.hist = q := by
+    show _ = seqRun Lru.step (Lru.new cap) progs.length (histOf progs τ)
+    rw [← ho.hist]
+  have hr := seqRun_eq_run (Lru.new cap) progs.length (histOf progs τ)
+  refine ⟨ho.hist, ho.todo, by rw [← hq]; exact hl.st, by rw [← hq]; exact hl.res,
+    by rw [← hq]; exact hl.disp, hr.1, hr.2, ?_⟩
+  intro hd
+  refine ⟨?_, ?_⟩
+  · have := hl.disp
+    rw [pending_done hd, List.append_nil, hq] at this
+    exact this
+  · rw [← ho.todo]; exact todo_done hd
+
+/-- consequently the size bound, key uniqueness and dispose-exactly-once hold in every configuration
+reachable under every schedule (not only in sequential use) -/
+theorem C17_bounded_all_schedules (cap : Nat) (progs : List (List Op)) (σ : List Nat) :
+    let cfg := exec Lru.step (Cfg.init (Lru.new cap) progs) σ
+    cfg.st.items.length ≤ cap ∧ (cfg.st.items.map (·.1)).Nodup ∧
+    (inserted (cfg.hist.map (·.2))).Perm (cfg.st.items.map (·.2) ++ (cfg.log.map (·.2) ++ pending cfg)) := by
+  intro cfg
+  obtain ⟨h1, _, h3, _, h5, h6, h7, _⟩ := C17_linearizable cap progs σ
+  have e : cfg.st = (run (Lru.new cap) (cfg.hist.map (·.2))).c := by
+    rw [h3, h6, ← h1]
+  refine ⟨by rw [e]; exact C17_bounded cap _, by rw [e]; exact C17_keys_unique cap _, ?_⟩
+  have hc := C17_dispose_exactly_once cap (cfg.hist.map (·.2))
+  rw [e]
+  refine hc.trans (List.Perm.append_left _ ?_)
+  have : (run (Lru.new cap) (cfg.hist.map (·.2))).disposed =
+      (seqRun Lru.step (Lru.new cap) progs.length (histOf progs (cfg.hist.map (·.1)))).disposed := by
+    rw [h7, ← h1]
+  rw [this]
+  exact h5.symm
+
+/-- dispose outside the lock, mutual exclusion: in every configuration reachable under every
+schedule, a thread about to call `dispose_func` does not own the lock, the lock owner is exactly the
+thread inside a locked body, and a thread inside its body has no dispose call pending.  (Model
+granularity = `with self.lock:` blocks; that the source has this shape is `C17_lock_discipline_fact`.) -/
+theorem C17_dispose_outside_lock (cap : Nat) (progs : List (List Op)) (σ : List Nat) (i : Nat) :
+    let cfg := exec Lru.step (Cfg.init (Lru.new cap) progs) σ
+    (action cfg i = .dispose → cfg.owner ≠ some i) ∧
+    (action cfg i = .body → cfg.owner = some i) ∧
+    (cfg.owner = some i → action cfg i = .body) := by
+  intro cfg
+  obtain ⟨h1, h2⟩ := lockInv_exec Lru.step (Lru.new cap) progs σ
+  refine ⟨?_, ?_, ?_⟩
+  · intro ha ho
+    obtain ⟨t, ht, hp⟩ := action_dispose_iff.mp ha
+    obtain ⟨u, hu, hul⟩ := h1 i ho
+    have : u = t := by
+      have : some u = some t := hu.symm.trans ht
+      exact Option.some.inj this
+    subst this
+    exact hp (h2 i u hu hul).2
+  · intro ha
+    obtain ⟨t, ht, hph⟩ := action_body_iff.mp ha
+    exact (h2 i t ht hph.2).1
+  · intro ho
+    obtain ⟨u, hu, hul⟩ := h1 i ho
+    exact action_body_iff.mpr ⟨u, hu, (h2 i u hu hul).2, hul⟩
+
+/-- non-vacuity: a schedule in which thread 0 disposes while thread 1 is inside the lock; the
+outcome is the sequential one in lock order `0,1` -/
+example :
+    let cfg := exec Lru.step (Cfg.init (Lru.new 1) [[.set 0 1, .set 1 2], [.set 0 3]]) [0, 0, 0, 0, 1, 0, 1]
+    action cfg 0 = .finished ∧ cfg.log = [(0, 1)] ∧ cfg.hist.map (·.1) = [0, 0, 1] ∧
+    cfg.st.items = [(0, 3)] ∧ cfg.done = false := by decide
+example : (exec Lru.step (Cfg.init (Lru.new 1) [[.set 0 1, .set 1 2], [.set 0 3]]) [0, 0, 0, 0, 1]).owner = some 1 ∧
+    action (exec Lru.step (Cfg.init (Lru.new 1) [[.set 0 1, .set 1 2], [.set 0 3]]) [0, 0, 0, 0, 1]) 0 = .dispose := by
+  decide
+
+/-! ## the PoolManager pool cache (`U3.Mgr`) -/
+open U3.Mgr
+
+/-- same key ⇒ same pool.  In any reachable manager state, a get-or-create for `k` followed by ANY
+sequence of manager operations (of any threads — every operation is one locked section, see
+`C17_manager_linearizable`) during which `k` stays cached, followed by another get-or-create for
+`k`, returns the same pool, and the second one does not create a pool. -/
+theorem C17_same_key_same_pool (cap : Nat) (pre : List MOp) (k : Key) (ops : List MOp) :
+    let m := runM (M.new cap) pre
+    let r1 := stepM m (.goc k)
+    (pop r1.1.cache.items k).isSome → StaysCached k r1.1 ops →
+    ∃ p f, r1.2.1 = .pool p f ∧ (stepM (runM r1.1 ops) (.goc k)).2.1 = .pool p false := by
+  intro m r1 hc hs
+  have hn : KeysNodup m := runM_nodup _ pre (by simp [KeysNodup, M.new, Lru.new])
+  have hn1 : KeysNodup r1.1 := stepM_nodup _ hn
+  cases hx : pop r1.1.cache.items k with
+  | none => simp [hx] at hc
+  | some x =>
+    obtain ⟨q, r⟩ := x
+    have hq := pop_mem hx
+    obtain ⟨f, hf⟩ := goc_cached hn hq
+    exact ⟨q, f, hf, goc_hit (runM_nodup _ ops hn1) (runM_stays hn1 ops hq hs)⟩
+
+/-- racing requests: for every schedule of threads running manager operations, the results every
+thread sees and the final cache are those of the sequential execution in lock order (so
+`C17_same_key_same_pool` applies to races), and the pool cache is bounded by `num_pools` -/
+theorem C17_manager_linearizable (cap : Nat) (progs : List (List MOp)) (σ : List Nat) :
+    let cfg := exec stepM (Cfg.init (M.new cap) progs) σ
+    let τ := cfg.hist.map (·.1)
+    let q := seqRun stepM (M.new cap) progs.length (histOf progs τ)
+    cfg.hist = histOf progs τ ∧ cfg.st = q.st ∧ cfg.threads.map (·.results) = q.results := by
+  intro cfg τ q
+  have ho := ordInv_exec stepM (M.new cap) progs σ
+  have hl := linInv_exec stepM (M.new cap) progs σ
+  have hq : seqRun stepM (M.new cap) progs.length cfg.hist = q := by
+    show _ = seqRun stepM (M.new cap) progs.length (histOf progs τ)
+    rw [← ho.hist]
+  exact ⟨ho.hist, by rw [← hq]; exact hl.st, by rw [← hq]; exact hl.res⟩
+
+/-- the pool cache never exceeds `num_pools`, whatever the sequence of requests / clears -/
+theorem C17_manager_bounded (cap : Nat) (ops : List MOp) : (runM (M.new cap) ops).cache.items.length ≤ cap := by
+  have := runM_bounded (M.new cap) ops (by simp [M.new, Lru.new])
+  simpa [M.new, Lru.new] using this
+
+/-- an evicted / cleared pool that nothing references any more is closed by the next finalizer run -/
+theorem C17_evicted_closed_at_quiescence (m : M) (p : PoolId) (hd : p ∈ m.dropped) (hr : p ∉ m.refs) :
+    p ∈ (stepM m .gc).1.closed := by
+  simp [stepM]
+  by_cases hc : p ∈ m.closed
+  · exact .inl hc
+  · exact .inr ⟨hd, hr, hc⟩
+
+/-- non-vacuity: two origins, `num_pools = 1`: the second origin evicts the first pool; the first
+origin then gets a *new* pool (it did not stay cached); while an origin stays cached it keeps its pool -/
+example : (stepM (runM (M.new 1) [.goc 0, .goc 1]) (.goc 0)).2.1 = .pool 2 true ∧
+    (stepM (runM (M.new 2) [.goc 0, .goc 1, .len]) (.goc 0)).2.1 = .pool 0 false ∧
+    StaysCached 0 (stepM (M.new 2) (.goc 0)).1 [.goc 1, .len] := by
+  refine ⟨by decide, by decide, ?_⟩
+  simp only [StaysCached]
+  decide
+example : (runM (M.new 1) [.goc 0, .goc 1, .release 0, .gc]).closed = [0] ∧
+    (runM (M.new 1) [.goc 0, .goc 1, .gc]).closed = [] := by decide
+
 /-- the structural premise of the interleaving model, read from the source on every run: every
 method of `RecentlyUsedContainer` touches `_container` only under `with self.lock:` and calls
 `dispose_func` only outside it; and the methods the model has transitions for are all listed. -/
